@@ -113,6 +113,38 @@ def model_multispill():
     return {'cells': cells, 'arrays': arrays, 'names': {}, 'sheets': [[M.B, 'S']]}
 
 
+def model_longfloat():
+    """constants stored with more than 15 significant digits (0.1+0.2, 0.7+0.1 pasted as values), read by exact-match consumers;
+    the partial model must load them exactly as the full model does (no reference verdict: only partial vs full)."""
+    K, cell, rng, op, fn, num, const = M.K, M.cell, M.rng, M.op, M.fn, M.num, M.const
+    cells = {
+        K('S', 'A1'): const(('n', 0.1 + 0.2)), K('S', 'A2'): const(('n', 0.7 + 0.1)), K('S', 'A3'): const(('n', 1.1 * 1.1)),
+        K('S', 'B1'): op('=', cell('S', 'A1'), num(0.3)), K('S', 'B2'): op('=', cell('S', 'A2'), num(0.8)),
+        K('S', 'B3'): op('*', op('-', cell('S', 'A3'), num(1.21)), num(1e17)), K('T', 'A1'): fn('IF', op('=', cell('S', 'A2'), num(0.8)), num(1), num(2)),
+        K('S', 'B4'): op('-', fn('SUM', rng('S', 'A1:A3')), num(2.31)),
+    }
+    return {'cells': cells, 'arrays': {}, 'names': {}, 'sheets': [[M.B, 'S'], [M.B, 'T']], 'no_ref': True}
+
+
+def model_linkhop():
+    """three workbooks with numeric external links in BOTH directions: the work-list leaves a sheet of the home book, first-visits a
+    sheet of another book and comes back to compile a cell that uses the home book's own link table."""
+    B, C, D = M.B, M.C, 'd.xlsx'
+    cell = lambda b, s, c: ['cell', b, s, c]
+    K = lambda b, s, c: M.W.key(b, s, c)
+    op, fn, num, const = M.op, M.fn, M.num, M.const
+    cells = {
+        K(B, 'S', 'A1'): op('+', cell(C, 'U', 'B1'), num(1)),
+        K(C, 'U', 'B1'): op('*', cell(B, 'S', 'C1'), num(3)),
+        K(B, 'S', 'C1'): op('*', cell(D, 'V', 'A3'), num(2)),
+        K(D, 'V', 'A3'): const(('n', 4.0)),
+        K(B, 'S', 'A2'): op('+', cell(B, 'S', 'A1'), cell(D, 'V', 'A3')),
+        K(B, 'T', 'A1'): op('+', cell(C, 'U', 'B2'), cell(D, 'V', 'A4')), K(C, 'U', 'B2'): const(('n', 6.0)), K(D, 'V', 'A4'): op('*', cell(C, 'U', 'B2'), num(10)),
+    }
+    return {'cells': cells, 'arrays': {}, 'names': {}, 'sheets': [[B, 'S'], [B, 'T'], [C, 'U'], [D, 'V']],
+            'links': {B: ['legacy.xls', C, D], C: [B, D], D: ['gone.xlsx', C]}}
+
+
 def model_dangling(H=M.B, C=M.C):
     """a linked workbook reached lazily: one reference to a sheet it does not have (intercepted), and valid references to it that
     sort before and after the dangling one in the completion work-list (sheets Alpha < Gone < Zeta)."""
@@ -130,7 +162,7 @@ def model_dangling(H=M.B, C=M.C):
     return {'cells': cells, 'arrays': {}, 'names': {}, 'sheets': [[H, 'Main'], [C, 'Alpha'], [C, 'Zeta']], 'strict_sheets': True}
 
 
-FIXED = dict(M.MODELS, multispill=model_multispill, spillpast=model_spillpast, dangling=model_dangling, dangling2=lambda: model_dangling(M.C, M.B), anchor=model_anchor, col=model_col, samesheet=model_samesheet, samesheet2=lambda: model_samesheet(M.C, M.B),
+FIXED = dict(M.MODELS, longfloat=model_longfloat, linkhop=model_linkhop, multispill=model_multispill, spillpast=model_spillpast, dangling=model_dangling, dangling2=lambda: model_dangling(M.C, M.B), anchor=model_anchor, col=model_col, samesheet=model_samesheet, samesheet2=lambda: model_samesheet(M.C, M.B),
              longspill=model_longspill, quoted=model_quoted)
 
 
@@ -213,7 +245,7 @@ def run_case(case):
         for kk in keys:
             g = X.cell_value(sol, spec, kk)
             f = X.cell_value(sol_full, spec, kk)
-            e = ref.get(kk)
+            e = ref.get(kk) if not spec.get('no_ref') else None
             if g is None:
                 fails.append(Fail('output-missing', got='absent', exp=str(e), cell=kk, **desc))
             elif f is not None and g != f and not close(g, f, 1e-12):
